@@ -122,8 +122,11 @@ class Ctx:
         self.info.append({'rule': rule, 'note': text})
 
     # -- running rules ---------------------------------------------------
-    def run_rule(self, rule_id, fn):
+    def run_rule(self, rule_id, fn, advisory=False):
+        """advisory rules give a sharper (symbolic) witness for one shape of the anchor; when the anchor has another shape they
+        stand down (noted in the evidence) because a shape-independent rule of the same property decides the clause"""
         before = len(self.obligations)
+        nerr = len(self.errors)
         try:
             fn(self)
         except AnalysisError as e:
@@ -139,6 +142,13 @@ class Ctx:
             err = AnalysisError('internal', '%s: %s\n%s' % (type(e).__name__, e, tb))
             err.rule = rule_id
             self.errors.append(err)
+        if advisory:
+            stood_down = [e for e in self.errors[nerr:] if e.kind in ('shape', 'anchor')]
+            if stood_down:
+                self.errors[nerr:] = [e for e in self.errors[nerr:] if e.kind not in ('shape', 'anchor')]
+                self.note(rule_id, 'advisory rule stood down (shape not the one it knows): ' + '; '.join(e.msg for e in stood_down)[:400])
+                self.rules_run.append((rule_id, len(self.obligations) - before))
+                return
         n = len(self.obligations) - before
         self.rules_run.append((rule_id, n))
         if n == 0 and not any(getattr(e, 'rule', None) == rule_id for e in self.errors):
